@@ -194,7 +194,9 @@ def main():
             sys.stdout = real_stdout
             print("\n" + json.dumps(out))
             return
-        rng = random.Random(task.get("seed", 0) * 1000003 + hash(task["contract"]) % 1000)
+        import zlib
+        # (not hash(): string hashes differ from process to process, the sampled inputs must not)
+        rng = random.Random(task.get("seed", 0) * 1000003 + zlib.crc32((task["contract"] + json.dumps(task["case"], sort_keys=True)).encode()) % 100000)
         # ---- 1. the proof
         proof_error = None
         try:
